@@ -68,10 +68,30 @@ let parse_op ?(npv = false) (s : string) : c20_op * bool =
     | "norm1" -> C20_NNorm1 (r 1), false
     | "norm22" -> C20_NNorm22 (r 1), false
     | "norminf" -> C20_NNormInf (r 1), false
+    | "getc" | "getva" | "getcopy" -> C20_NGet (r 1, ni 2), false      (* const operator[], vec_access, NumPyVector(size)+conversion *)
+    | "bad2d" -> C20_NBadDim, false
     | x -> raise (Bad_op x)
   else
   match t.(0) with
+  | "new" when List.mem t.(2) ["npint"; "npf32"; "np2d"; "bytearray"; "arrayi"] -> C20_NewBadBuffer, false
   | "new" -> C20_New (r 1, ql 3), false
+  | "copyargs" -> C20_CopyArgs (r 1, ql 2), false
+  | "float" -> C20_Float (r 1), false
+  | "setslice" -> C20_SetSlice (r 1, optz t.(2), optz t.(3), optz t.(4), ql 5), true
+  | "nel" -> C20_NeL (r 1, ql 2), false
+  | "isubl" -> C20_ISubL (r 1, ql 2), true
+  | "assignl" -> C20_AssignL (r 1, ql 2), true
+  | "addt" -> C20_AddL (r 1, ql 2), false            (* tuple operand: implicitly_convertible< args, FV > *)
+  | "eqt" -> C20_EqL (r 1, ql 2), false
+  | "eqf" -> C20_EqL (r 1, [qq 2]), false            (* n = 1 only: the number converts to FieldVector<K,1> *)
+  | "rdotl" -> C20_DotL (r 1, ql 2), false           (* list * v: __rmul__( T, T ) *)
+  | "norm1r" -> C20_Norm1 (r 1), false               (* one_norm_real / infinity_norm_real: real entries *)
+  | "norminfr" -> C20_NormInf (r 1), false
+  | "div2" -> C20_DivS (r 1, qq 2), false            (* __div__ *)
+  | "getnp" -> C20_Get (r 1, zi 2), false            (* numpy.int64 index *)
+  | "setnp" -> C20_Set (r 1, zi 2, qq 3), true
+  | "ellipsis" -> C20_Slice (r 1, None, None, None), false
+  | "bufinfo" -> C20_Len (r 1), false                (* memoryview(v): format d, one dimension of n entries, stride 8, writable *)
   | "view" -> C20_View (r 1), false
   | "slice" -> C20_Slice (r 1, optz t.(2), optz t.(3), optz t.(4)), false
   | "copyctor" -> C20_CopyCtor (r 1), false
@@ -155,6 +175,21 @@ let tv_line (parts : string list) : string =
       | C20_Exc e -> add (Printf.sprintf "set%d:!%s" i (exc_name e))) idx;
     add ("copy=" ^ String.concat "," (List.map (fun i -> tv_res (c20_tv_getitem !cp (z_of_int i))) idx));
     add ("orig=" ^ String.concat "," (List.map (fun i -> tv_res (c20_tv_getitem tv (z_of_int i))) idx));
+    add ("neg:" ^ tv_res (c20_tv_getitem tv (z_of_int (-1))));
+    List.iter (fun i ->                       (* a value that does not cast to the element type *)
+      match c20_tv_setitem !cp (z_of_int i) (C20_TVec []) with
+      | C20_Ok _ -> add (Printf.sprintf "bad%d:ok" i)
+      | C20_Exc e -> add (Printf.sprintf "bad%d:!%s" i (exc_name e))) idx;
+    let cp2 = c20_tv_assign !cp tv in
+    add ("assign=" ^ String.concat "," (List.map (fun i -> tv_res (c20_tv_getitem cp2 (z_of_int i))) idx));
+    (* tv[j] is a reference to the stored element: writing entry 0 of the first vector element through it *)
+    let rec first_vec i = function [] -> None | C20_TVec (_ :: r) :: _ -> Some (i, r) | _ :: t -> first_vec (i + 1) t in
+    (match first_vec 0 tv with
+     | None -> add "alias=-"
+     | Some (j, rest) ->
+        (match c20_tv_setitem tv (z_of_int j) (C20_TVec (q_of_string "99" :: rest)) with
+         | C20_Ok tv' -> add ("alias=" ^ tv_res (c20_tv_getitem tv' (z_of_int j)))
+         | C20_Exc e -> add ("alias=!" ^ exc_name e)));
     String.concat " | " (List.rev !out)
 
 let () =
@@ -167,7 +202,7 @@ let () =
       try
         let parts = String.split_on_char ';' line in
         let head = String.trim (List.hd parts) in
-        if head = "tv" then tv_line (List.tl parts) else
+        if head = "tv" || head = "tva" then tv_line (List.tl parts) else
         let npv = (head = "npv") in
         let parts = if npv then List.tl parts else parts in
         let ops = List.map (fun s -> parse_op ~npv (String.trim s)) parts in
